@@ -983,14 +983,7 @@ class segment_if(x12_node):
                 # Validate composite
                 ref_des = '%02i' % (i + 1)
                 comp_data = seg_data.get(ref_des)
-                subele_count = child_node.get_child_count()
-                if seg_data.ele_len(ref_des) > subele_count and child_node.usage != 'N':
-                    subele_node = child_node.get_child_node_by_idx(
-                        subele_count + 1)
-                    err_str = 'Too many sub-elements in composite "%s" (%s)' % \
-                        (subele_node.name, subele_node.refdes)
-                    err_value = seg_data.get_value(ref_des)
-                    errh.ele_error('3', err_str, err_value, ref_des)
+                # too many sub-elements is reported by the composite node itself
                 valid &= child_node.is_valid(comp_data, errh)
             elif child_node.is_element():
                 # Validate Element
